@@ -87,9 +87,10 @@ class Gen:
         self.rng = rng
         self.vars = {}        # name -> vardef, collected while generating one operation
         self.allow_vars = True
+        self.prefix, self.counter = "k", 0
 
     def use_var(self, ty_name, ty):
-        n = "v%s%d" % (ty_name[0].lower(), self.rng.below(2))
+        n = "v%s%d" % (ty_name.lower(), self.rng.below(2))
         if n not in self.vars:
             default = None
             if self.rng.chance(1, 3) and ty["k"] != "nn":
@@ -121,7 +122,8 @@ class Gen:
             if r.chance(1, 2):
                 fs.append({"name": "s", "v": self.value_for("String", depth + 1, allow_var)})
             if depth < 2 and r.chance(1, 3):
-                fs.append({"name": "b", "v": {"k": "list", "vs": [self.value_for("In", depth + 1, allow_var)
+                # items of [In!] are non-null positions: a (nullable) variable would not be valid there
+                fs.append({"name": "b", "v": {"k": "list", "vs": [self.value_for("In", depth + 1, False)
                                                                 for _ in range(r.below(3))]}})
             return {"k": "object", "fs": fs}
         raise ValueError(ty_name)
@@ -171,13 +173,14 @@ class Gen:
                 continue
             else:
                 name, alias = "__typename", None
-            key = name
-            if key in keys or r.chance(1, 5):
-                alias = "k%d" % len(keys)
-                key = alias
-                if key in keys:
-                    continue
-            keys.add(key)
+            # FieldsInSetCanMerge: selections from inline fragments and spreads share one response scope, so only
+            # argument-less scalar fields may go unaliased; everything else gets an alias unique in the whole document
+            if name not in ("a", "__typename") or r.chance(1, 4):
+                self.counter += 1
+                alias = "%s_%d" % (self.prefix, self.counter)
+            key = alias or name
+            if key in keys:
+                continue
             args = self.args_b() if name == "b" else []
             sub = self.selection(depth + 1, frags) if name in ("q", "qs") else None
             sel.append(field(name, alias, args, self.cond_dirs(), sub))
@@ -186,6 +189,7 @@ class Gen:
         return sel
 
     def operation(self, name, frags, op_type="query"):
+        self.prefix = "o" + (name or "")
         self.vars = {}
         self.allow_vars = True
         if op_type == "query":
@@ -198,6 +202,7 @@ class Gen:
         return op(name, sel, op_type, [self.vars[k] for k in sorted(self.vars)], dirs)
 
     def fragment(self, name, frags):
+        self.prefix = "f" + name
         self.allow_vars = False       # fragments stay variable-free so that any operation may spread them
         self.vars = {}
         d = frag(name, self.selection(1, frags), "Query", [directive("dq")] if self.rng.chance(1, 6) else [])
